@@ -60,12 +60,23 @@ type CtrlConn struct {
 	idx   int
 	// Decide, if set, is asked before every call is executed.
 	Decide func(c *CtrlCall) CtrlFaultMode
+	// FaultErr, if set, chooses the error VALUE an injected fault returns (nil: ErrCtrlInjected).
+	FaultErr func(c *CtrlCall) error
 	// AfterApply, if set, is called after a statement changed the catalogue (history invariants).
 	AfterApply func(c *CtrlCall, cat *CtrlCatalog)
 	closed     int
 }
 
 var _ driver.Conn = (*CtrlConn)(nil)
+
+func (c *CtrlConn) faultErr(call *CtrlCall) error {
+	if c.FaultErr != nil {
+		if e := c.FaultErr(call); e != nil {
+			return e
+		}
+	}
+	return ErrCtrlInjected
+}
 
 // NewCtrlConn returns a connection to an empty database named db.
 func NewCtrlConn(db string) *CtrlConn { return &CtrlConn{Cat: NewCtrlCatalog(db)} }
@@ -181,8 +192,9 @@ func (c *CtrlConn) begin(query string, args []any, isQuery bool) (*CtrlCall, err
 		call.Fault = c.Decide(call)
 	}
 	if call.Fault == CtrlFailBefore {
-		call.Err = ErrCtrlInjected.Error()
-		return call, ErrCtrlInjected
+		e := c.faultErr(call)
+		call.Err = e.Error()
+		return call, e
 	}
 	return call, nil
 }
@@ -216,8 +228,9 @@ func (c *CtrlConn) Exec(ctx context.Context, query string, args ...any) error {
 		}
 	}
 	if call.Fault == CtrlFailAfter {
-		call.Err = ErrCtrlInjected.Error()
-		return ErrCtrlInjected
+		e := c.faultErr(call)
+		call.Err = e.Error()
+		return e
 	}
 	return nil
 }
@@ -291,8 +304,9 @@ func (c *CtrlConn) Query(ctx context.Context, query string, args ...any) (driver
 	}
 	call.Applied = true
 	if call.Fault == CtrlFailAfter {
-		call.Err = ErrCtrlInjected.Error()
-		return nil, ErrCtrlInjected
+		e := c.faultErr(call)
+		call.Err = e.Error()
+		return nil, e
 	}
 	return rows, nil
 }
